@@ -529,8 +529,10 @@ pub fn classify(spec: &CaseSpec, symbolic_plain: bool) -> Expect {
             }
         }
         // lists are written whether or not an attribute refers to them
+        // (the `pre` items are only emitted - hence only judged - where `pre_allowed`)
+        let pre_ok = pre_allowed(us);
         for l in &us.rlists {
-            for (a, len) in &l.pre {
+            for (a, len) in l.pre.iter().filter(|_| pre_ok) {
                 classify_addr(a, enc, spec, symbolic_plain, &mut out);
                 classify_addr(&a.plus(*len), enc, spec, symbolic_plain, &mut out);
             }
@@ -538,7 +540,7 @@ pub fn classify(spec: &CaseSpec, symbolic_plain: bool) -> Expect {
         }
         for l in &us.llists {
             let c = XCtx { spec, u, pos: &pos, owner: None, mode_symbolic_plain: symbolic_plain };
-            for (a, len, x) in &l.pre {
+            for (a, len, x) in l.pre.iter().filter(|_| pre_ok) {
                 classify_addr(a, enc, spec, symbolic_plain, &mut out);
                 classify_addr(&a.plus(*len), enc, spec, symbolic_plain, &mut out);
                 classify_x(x, &c, &mut out);
